@@ -47,6 +47,65 @@ NORMAL_WIDTH = {"src_port": 2, "dst_port": 2, "protocol_number": 1, "protocol_ty
 GET = ("std::collections::BTreeMap::get",)
 
 
+FORBIDDEN_ADAPTORS = ("rev", "skip", "step_by", "filter", "take", "skip_while", "take_while", "zip", "chain", "cycle", "peekable_skip",
+                      "reverse", "sort", "sort_by", "sort_unstable", "sort_by_key", "dedup", "swap", "rotate_left", "rotate_right", "truncate", "pop",
+                      "remove", "swap_remove", "insert", "drain", "retain", "split_off", "last", "nth", "max", "min")
+
+
+def reachable_local_bodies(prog, fn_path):
+    """Crate bodies reachable in the instance graph from the function (closures and helpers included)."""
+    starts = [i for i, n in enumerate(prog.nodes) if n["path"] == fn_path]
+    seen = set()
+    st = list(starts)
+    while st:
+        x = st.pop()
+        if x in seen:
+            continue
+        seen.add(x)
+        st.extend(prog.nodes[x]["callees"])
+    out = {}
+    for i in seen:
+        nd = prog.nodes[i]
+        if nd["local"] and nd["path"] in prog.bodies and not prog.bodies[nd["path"]].derived:
+            out[nd["path"]] = prog.bodies[nd["path"]]
+    # closures defined under those bodies (even when only passed as values)
+    for p, b in prog.bodies.items():
+        root = p.split("::{closure")[0]
+        if root in out and p not in out:
+            out[p] = b
+    if fn_path in prog.bodies:
+        out[fn_path] = prog.bodies[fn_path]
+    return out
+
+
+def order_preserving(prog, bodies, stop_at=()):
+    """No reordering / filtering adaptor or vector edit is called in the given bodies."""
+    bad = []
+    for b in bodies.values():
+        if any(b.path.startswith(s) for s in stop_at):
+            continue
+        for blk, t, c in b.calls():
+            if c is None:
+                continue
+            last = c.nsyn.rsplit("::", 1)[-1]
+            if (c.nsyn.startswith(("std::iter::Iterator::", "std::vec::Vec::", "core::slice::<impl [T]>::", "std::slice::<impl [T]>::", "std::iter::DoubleEndedIterator::")) and last in FORBIDDEN_ADAPTORS):
+                bad.append("%s at %s" % (c.nsyn, b.line(blk)))
+    return bad
+
+
+def is_element(e):
+    """Expression denoting 'the current element' of an in-order iteration: a closure/helper parameter or Some(next(iter))."""
+    e = peel(e)
+    if e[0] == "arg":
+        return True
+    if e[0] == "some":
+        inner = peel(e[1])
+        return inner[0] == "call" and inner[2] is not None and inner[2].nsyn == "std::iter::Iterator::next"
+    if e[0] == "cycle":
+        return True
+    return False
+
+
 def keys_in(an, prog, e, depth=0):
     """Variant names used as keys of BTreeMap::get inside expression e (following closures)."""
     out = []
@@ -165,23 +224,22 @@ def run(ctx, env):
     ctx.rule("R13.5", "NetflowPacket::Error converts to Err; the flattening helper is parse_bytes → iter → flat_map(as_netflow_common().unwrap_or_default().flowsets) → collect")
     # R13.1
     for ver, mod in ((5, "static_versions::v5::V5"), (7, "static_versions::v7::V7")):
-        fn = "<netflow_common::NetflowCommon as std::convert::From<&%s>>::from" % mod
-        b = prog.body(fn)
-        if not ctx.anchor("R13.1", fn, b):
+        fnb = prog.impl_fn("netflow_common::NetflowCommon", "From<&%s>" % mod, "from")
+        fn = fnb.path if fnb else "From<&%s> for NetflowCommon" % mod
+        if not ctx.anchor("R13.1", fn, fnb):
             continue
-        # closure building the flow
+        rb = reachable_local_bodies(prog, fn)
         aggs = []
-        for p, cb in prog.bodies.items():
-            if p.startswith(fn):
-                for (blk, i, s) in block_aggs(cb):
-                    if s["rv"]["adt"].endswith("NetflowCommonFlowSet"):
-                        aggs.append((cb, s))
+        for p, cb in rb.items():
+            for (blk, i, s) in block_aggs(cb):
+                if s["rv"]["adt"].endswith("NetflowCommonFlowSet"):
+                    aggs.append((cb, s))
         if len(aggs) != 1:
-            ctx.ob("R13.1", fn, "single-flow-constructor", False, "found %d NetflowCommonFlowSet constructions" % len(aggs))
+            ctx.ob("R13.1", fn, "single-flow-constructor", False, "found %d NetflowCommonFlowSet constructions below the conversion" % len(aggs))
             continue
         cb, s = aggs[0]
         for nm, o in zip(s["rv"]["fields"], s["rv"]["ops"]):
-            e = peel(an.op(cb, o))
+            e = peel(an.opx(cb, o))
             want = FIXED.get(nm)
             if want is None:
                 ok = e[0] == "agg" and e[2] == "None"
@@ -190,40 +248,41 @@ def run(ctx, env):
             ok = False
             if e[0] == "agg" and e[2] == "Some":
                 inner = peel(e[3][0], widen=True)
-                ok = inner[0] == "field" and inner[2] == want and peel(inner[1]) == ("arg", 2)
+                ok = inner[0] == "field" and inner[2] == want and is_element(inner[1])
             ctx.ob("R13.1", fn, "field:%s" % nm, ok, "%s = %s (expected Some(record.%s))" % (nm, canon(e)[:140], want), site=site(s["span"]))
-        top = [x for x in block_aggs(b) if x[2]["rv"]["adt"].endswith("NetflowCommon")]
+        top = [(bb, x) for bb in rb.values() for x in block_aggs(bb) if x[2]["rv"]["adt"].endswith("NetflowCommon")]
         if top:
-            tf = dict(zip(top[0][2]["rv"]["fields"], top[0][2]["rv"]["ops"]))
-            v = peel(an.op(b, tf["version"]))
-            ts = peel(an.op(b, tf["timestamp"]))
+            bb, x = top[0]
+            tf = dict(zip(x[2]["rv"]["fields"], x[2]["rv"]["ops"]))
+            v = peel(an.opx(bb, tf["version"]))
+            ts = peel(an.opx(bb, tf["timestamp"]))
             ctx.ob("R13.1", fn, "version", v[0] == "field" and v[2] == "version" and peel(v[1])[0] == "field" and peel(v[1])[2] == "header", canon(v)[:100])
             ctx.ob("R13.1", fn, "timestamp", ts[0] == "field" and ts[2] == "sys_up_time" and peel(ts[1])[2] == "header", canon(ts)[:100])
-            fl = peel(an.op(b, tf["flowsets"]))
-            # collect(map(iter(value.flowsets), closure))
-            ok = False
-            why = canon(fl)[:200]
-            if fl[0] == "call" and fl[2].nsyn == "std::iter::Iterator::collect":
-                m = peel(fl[3][0], identity=())
-                if m[0] == "call" and m[2].nsyn == "std::iter::Iterator::map":
-                    it = peel(m[3][0], identity=())
-                    if it[0] == "call" and it[2].npath in ("core::slice::<impl [T]>::iter", "std::slice::<impl [T]>::iter"):
-                        src = peel(it[3][0])
-                        ok = src[0] == "field" and src[2] == "flowsets"
-            ctx.ob("R13.1", fn, "flows-in-record-order", ok, "flowsets = %s" % why)
+            # one flow per record, in order: the only collection iterated is value.flowsets, by an order-preserving traversal
+            iters = []
+            for b2 in rb.values():
+                for blk, t, c in b2.calls():
+                    if c is not None and (c.npath in ("core::slice::<impl [T]>::iter", "std::slice::<impl [T]>::iter") or c.nsyn == "std::iter::IntoIterator::into_iter"):
+                        src = peel(an.op(b2, t["args"][0]))
+                        iters.append(src)
+            okit = len(iters) == 1 and iters[0][0] == "field" and iters[0][2] == "flowsets"
+            bad = order_preserving(prog, rb)
+            ctx.ob("R13.1", fn, "flows-in-record-order", okit and not bad,
+                   "iterates %s; reordering/filtering calls: %s" % ([canon(x)[:60] for x in iters], bad))
         else:
             ctx.ob("R13.1", fn, "common-constructor", False, "no NetflowCommon aggregate")
     # R13.2 / R13.3
     prod, wt = produced_kinds(an, prog)
     for proto, P in sorted(PROJ.items()):
-        b = prog.body(P["fn"])
-        if not ctx.anchor("R13.2", P["fn"], b):
+        b0 = prog.body(P["fn"])
+        if not ctx.anchor("R13.2", P["fn"], b0):
             continue
-        aggs = [(blk, i, s) for (blk, i, s) in block_aggs(b) if s["rv"]["adt"].endswith("NetflowCommonFlowSet")]
+        rb = reachable_local_bodies(prog, P["fn"])
+        aggs = [(bb, blk, i, s) for bb in rb.values() for (blk, i, s) in block_aggs(bb) if s["rv"]["adt"].endswith("NetflowCommonFlowSet")]
         if len(aggs) != 1:
-            ctx.ob("R13.2", P["fn"], "single-flow-constructor", False, "found %d" % len(aggs))
+            ctx.ob("R13.2", P["fn"], "single-flow-constructor", False, "found %d NetflowCommonFlowSet constructions below the conversion" % len(aggs))
             continue
-        blk, i, s = aggs[0]
+        b, blk, i, s = aggs[0]
         enum = prog.adts.get(P["enum"])
         discr = {v["name"]: int(v["discr"]) for v in enum["variants"]} if enum else {}
         dtb = prog.impl_fn("variable_versions::data_number::FieldDataType", "From<%s>" % P["enum"], "from")
@@ -254,11 +313,14 @@ def run(ctx, env):
                     ok = pv in dn
                     detail += "; width %s -> DataNumber::%s; %s accepts DataNumber::%s" % (w, pv, T, sorted(dn))
                 ctx.ob("R13.3", P["fn"], "kind:%s<-%s" % (nm, key), ok, detail, site=site(s["span"]))
-        top = [x for x in block_aggs(b) if x[2]["rv"]["adt"].endswith("NetflowCommon")]
+        top = [(bb, x) for bb in rb.values() for x in block_aggs(bb) if x[2]["rv"]["adt"].endswith("NetflowCommon")]
         if top:
-            tf = dict(zip(top[0][2]["rv"]["fields"], top[0][2]["rv"]["ops"]))
-            v = peel(an.op(b, tf["version"]))
-            ts = peel(an.op(b, tf["timestamp"]))
+            tb_, tx = top[0]
+            tf = dict(zip(tx[2]["rv"]["fields"], tx[2]["rv"]["ops"]))
+            v = peel(an.op(tb_, tf["version"]))
+            ts = peel(an.op(tb_, tf["timestamp"]))
+            bad = order_preserving(prog, rb)
+            ctx.ob("R13.2", P["fn"], "records-in-order", not bad, "reordering/filtering calls below the conversion: %s" % bad)
             ctx.ob("R13.2", P["fn"], "version", v[0] == "field" and v[2] == "version", canon(v)[:100])
             ctx.ob("R13.2", P["fn"], "timestamp", ts[0] == "field" and ts[2] == P["timestamp"], canon(ts)[:100])
     # R13.4
@@ -311,14 +373,11 @@ def run(ctx, env):
         ctx.ob("R13.5", tb.path, "error-to-Err", ok, why)
     hb = prog.body("NetflowParser::parse_bytes_as_netflow_common_flowsets")
     if ctx.anchor("R13.5", "parse_bytes_as_netflow_common_flowsets", hb):
-        ret = peel(an.local(hb, 0))
-        ok = False
-        why = canon(ret)[:300]
-        if ret[0] == "call" and ret[2].nsyn == "std::iter::Iterator::collect":
-            fm = peel(ret[3][0], identity=())
-            if fm[0] == "call" and fm[2].nsyn == "std::iter::Iterator::flat_map":
-                it = peel(fm[3][0], identity=())
-                if it[0] == "call" and it[2].npath in ("core::slice::<impl [T]>::iter", "std::slice::<impl [T]>::iter"):
-                    src = peel(it[3][0], identity=("std::ops::Deref::deref",))
-                    ok = src[0] == "call" and src[2].path == "NetflowParser::parse_bytes"
-        ctx.ob("R13.5", hb.path, "flatten-in-order", ok, why)
+        rb = reachable_local_bodies(prog, hb.path)
+        own = {p: b for p, b in rb.items() if p == hb.path or p.startswith(hb.path + "::")}
+        pcalls = [(b.path, blk) for b in own.values() for blk, t, c in b.calls() if c is not None and c.local and c.path == "NetflowParser::parse_bytes"]
+        convs = [(b.path, blk) for b in own.values() for blk, t, c in b.calls() if c is not None and c.local and c.path == "NetflowPacket::as_netflow_common"]
+        bad = order_preserving(prog, own)
+        ok = len(pcalls) == 1 and len(convs) >= 1 and not bad
+        ctx.ob("R13.5", hb.path, "flatten-in-order", ok,
+               "parse_bytes calls: %d, as_netflow_common calls: %d, reordering/filtering calls: %s" % (len(pcalls), len(convs), bad))
